@@ -88,6 +88,20 @@ CHECKS = {
         "during the resize; termination by the C01 watchdog.",
         "DESIGN.md section 3, C10",
     ),
+    "C12": _tree(
+        "exploration",
+        "history + /proc + inotify observation of tracker identity, liveness under signals (external and self-delivered at statement boundaries of main()), resource lifetime vs reaper timestamps, relaunch after SIGKILL",
+        "Trees of depth 0-3 in both loky start methods; every member probes the tracker it reports to; signals are delivered to the tracker from outside and at sampled "
+        "statement boundaries of its own main() incl. start-up; a registered file must outlive every member and be gone after the tree; after SIGKILL of the tracker the next tracked operation must succeed.",
+        "DESIGN.md section 3, C12",
+    ),
+    "C13": _tree(
+        "exploration",
+        "exact observation of the semaphore namespace: private tmpfs on /dev/shm per case + inotify create/delete history, listings after each disposal and after the tree ended; tracker stderr classified",
+        "Histories of primitive/executor creation, use by children (pickled copies, crashing children) and disposal, with every way of ending incl. SIGKILL of the parent at "
+        "statements of submit/spawn/SemLock.__init__; the namespace must be empty after the tree ended, names must disappear when their object is collected, and no 'leaked' report may appear in crash-free histories.",
+        "DESIGN.md section 3, C13",
+    ),
     "C11": {
         "level": "other",
         "technique": "reference-model runtime monitor on the real tracker loop (recorded clean-up trace vs executable model), exhaustive short sequences + seeded random long ones",
@@ -100,6 +114,25 @@ CHECKS = {
         "Holds for the sequences explored (all sequences <= bound over a 16-token alphabet; random ones beyond).",
         "engine": "tracker_model",
     },
+    "C18": _tree(
+        "exploration",
+        "observation at the earliest instant of every worker (sitecustomize: inherited fds with inodes, os.environ) vs canaries/keep-lists/parent environment; init tokens in task records; exit-status differential on bare LokyProcesses",
+        "Canary descriptors at low/high/sparse numbers, env overlays, both contexts, initializer variants incl. failure on the n-th spawn and forced memory-leak exits, "
+        "respawned and resize-added workers; exit codes and terminating signals compared with what the child applied to itself (all 256 codes + 23 signals in the thorough tier).",
+        "DESIGN.md section 3, C18",
+    ),
+    "C19": _tree(
+        "exploration",
+        "differential oracle: every nesting level reports the depth it observes and the outcome of constructing an executor; compared with the arithmetic of the statement; proc_start records bound the spawned levels",
+        "LOKY_MAX_DEPTH in {1,2,3,4,default,0,-1}; chains built to the limit plus one attempt beyond; fork context at depth >= 1; reuse of the same workers, respawn after time-out, resize-added workers.",
+        "DESIGN.md section 3, C19",
+    ),
+    "C20": _tree(
+        "exploration",
+        "census equality (descriptors by kind, threads, children incl. zombies, /dev/shm entries) after 1 run vs after 1+N runs of the same lifecycle history",
+        "Lifecycles plain/reusable/nested x clean (4 ways)/killed/broken/timed-out/resized, sequences of up to 3 lifecycles repeated N in {2,5,20} times; exact equality of the four censuses.",
+        "DESIGN.md section 3, C20",
+    ),
     "C16": {
         "level": "exploration",
         "technique": "differential runtime oracle: generated functions/instances/classes wrapped by the real wrap_non_picklable_objects, compared with the bare object through real pickle round trips and a cross-process leg",
